@@ -4,6 +4,7 @@ package conc
 
 import (
 	"fmt"
+	"strings"
 	"sync"
 	"testing"
 	"time"
@@ -37,13 +38,13 @@ type C17Op struct {
 }
 
 var vigilSites = []string{
-	"vigil:BeginVigil:1:atomic.AddInt64",
-	"vigil:CeaseVigil:1:atomic.AddInt64",
-	"vigil:CeaseVigil:2:Broadcast",
-	"vigil:HasActiveVigils:1:atomic.LoadInt64",
-	"vigil:WaitForActiveVigilsClosed:1:Lock",
-	"vigil:WaitForActiveVigilsClosed:2:HasActiveVigils",
-	"vigil:WaitForActiveVigilsClosed:3:Wait",
+	"vigil:BeginVigil:atomic.AddInt64:b99a82",
+	"vigil:CeaseVigil:atomic.AddInt64:102c0e",
+	"vigil:CeaseVigil:Broadcast:ba67e6",
+	"vigil:HasActiveVigils:atomic.LoadInt64:c1a334",
+	"vigil:WaitForActiveVigilsClosed:Lock:576818",
+	"vigil:WaitForActiveVigilsClosed:HasActiveVigils:a30590",
+	"vigil:WaitForActiveVigilsClosed:Wait:a25f48",
 }
 
 func genC17(t *rapid.T) C17Scenario {
@@ -67,7 +68,7 @@ func genC17(t *rapid.T) C17Scenario {
 			a.SleepUs = rapid.SampledFrom([]int{50, 500, 2000, 6000}).Draw(t, "us")
 		default:
 			a.Kind = "pause"
-			a.Until = rapid.SampledFrom([]string{"all-ceased", "site:vigil:CeaseVigil:2:Broadcast", "site:vigil:CeaseVigil:1:atomic.AddInt64", "site:vigil:WaitForActiveVigilsClosed:3:Wait"}).Draw(t, "until")
+			a.Until = rapid.SampledFrom([]string{"all-ceased", "site:vigil:CeaseVigil:Broadcast:ba67e6", "site:vigil:CeaseVigil:atomic.AddInt64:102c0e", "site:vigil:WaitForActiveVigilsClosed:Wait:a25f48"}).Draw(t, "until")
 			a.MaxWaitMs = rapid.SampledFrom([]int{2, 20, 100}).Draw(t, "maxwait")
 		}
 		s.Plan = append(s.Plan, a)
@@ -161,7 +162,7 @@ func runC17(s C17Scenario) pbt.Outcome {
 	}
 	nt := false
 	for _, f := range rep.Fired {
-		if len(f) > 40 && f[:40] == "vigil:WaitForActiveVigilsClosed:3:Wait#1"[:40] {
+		if strings.HasPrefix(f, "vigil:WaitForActiveVigilsClosed:Wait:a25f48#") {
 			nt = true
 		}
 	}
@@ -169,7 +170,7 @@ func runC17(s C17Scenario) pbt.Outcome {
 	if nt {
 		out.Classes = append(out.Classes, "waiter-delayed-between-check-and-wait")
 	}
-	if rep.Hits["vigil:WaitForActiveVigilsClosed:3:Wait"] > 0 {
+	if rep.Hits["vigil:WaitForActiveVigilsClosed:Wait:a25f48"] > 0 {
 		out.Classes = append(out.Classes, "waiter-had-to-wait")
 	}
 	return out
